@@ -292,6 +292,7 @@ structure Table (α : Type) where
   ye : List (Cell α)
   ze : List (Cell α)
   user : List (List (List (Cell α)))       -- one nparticles × next_chems matrix per `userVars`
+  Ta : List (Cell α)                        -- written by the plume models, read by the loader (l.1110, 1128)
 
 /-- l.838-847: the key list of the FIRST soluble particle whose user data has strictly more
     entries than any before it -/
@@ -393,7 +394,8 @@ def mkTable (ptype : Nat) (chem : List String) (ps : List (Particle α)) (KT0 : 
     xe := bent fun p => p.exit.map (·.2.1)
     ye := bent fun p => p.exit.map (·.2.2.1)
     ze := bent fun p => p.exit.map (·.2.2.2)
-    user := if next > 0 then (List.range 13).map fun k => ps.map (userRow ucomp k) else [] }
+    user := if next > 0 then (List.range 13).map fun k => ps.map (userRow ucomp k) else []
+    Ta := [] }
 
 /-- `none` = the writer raises -/
 def saveTable (ptype : Nat) (chem : List String) (ps : List (Particle α)) (KT0 : List α) :
@@ -499,7 +501,8 @@ def Table.ofFile (f : File α) : Table α :=
     xe := f.f1 "xe"
     ye := f.f1 "ye"
     ze := f.f1 "ze"
-    user := if f.dim "next_chems" > 0 then userVars.map f.f2 else [] }
+    user := if f.dim "next_chems" > 0 then userVars.map f.f2 else []
+    Ta := f.f1 "Ta" }
 
 /-- `x == 0.` on a `Num` (no `==` on α) -/
 def isZero (x : α) : Bool := decide (x ≤ 0 ∧ 0 ≤ x)
@@ -549,8 +552,13 @@ def loadParticleT (t : Table α) (i : Nat) : Particle α :=
     if truthy (at1 t.issoluble i) then (t.m0.getD i []).map valF else [valF (at2 t.m0 i 0)]
   let bentp := ptype == 2
   let plume := ptype == 2 || ptype == 1
+  let T0 := valF (at1 t.T0 i)
+  let kt := valF (at1 t.K_T i)
+  -- PlumeParticle.__init__ ends with `self.update(m0, T0, P, Sa, Ta, 0.)`, whose call of
+  -- `properties` (l.206-207) switches heat transfer off within 0.5 K of the ambient temperature
+  let K_T := if plume && decide (0 < kt) && decide (Num.abs (valF (at1 t.Ta 0) - T0) < 0.5) then 0 else kt
   { dbm := dbm, m0 := m0,
-    T0 := valF (at1 t.T0 i), K := valF (at1 t.K i), K_T := valF (at1 t.K_T i),
+    T0 := T0, K := valF (at1 t.K i), K_T := K_T,
     fdis := valF (at1 t.fdis i), t_hyd := valF (at1 t.t_hyd i),
     lag_time := true,                                   -- constructor default; not in the file
     nb0 := if plume then valF (at1 t.nb0 i) else 0,
@@ -575,6 +583,11 @@ def loadParticlesT (t : Table α) : List (Particle α) × List String :=
 /-- `dispersed_phases.load_particle_from_nc_file(nc)` -/
 def loadParticles (f : File α) : List (Particle α) × List String := loadParticlesT (Table.ofFile f)
 
+/-- a file that holds only the ambient temperature at the release (for the particle reader alone) -/
+def taFile (Ta : α) : File α :=
+  { attrs := [], dims := [("params", 1)],
+    vars := [vF "Ta" "ambient temperature at the release point" "Ta" "K" ["params"] [some Ta]] }
+
 /-- what survives the file: the fields the writer does not store take the values the
     constructors give them when the reader omits the argument -/
 def UserChem.forget (u : UserChem α) : UserChem α :=
@@ -597,21 +610,23 @@ structure Sbm (α : Type) where
   t : List α
   y : List (List α)             -- one row per time
 
-def saveSbm (h : Header) (s : Sbm α) : Option (File α) := do
-  let tbl ← saveTable 0 s.composition [s.particle] [s.K_T0]
+/-- dimensions and variables `save_sim` creates itself (l.482-514, 520-523) -/
+def sbmOwn (s : Sbm α) : File α :=
   let nt := s.t.length
   let ns := (s.y.headD []).length
-  let own : File α :=
-    { attrs := [],
-      dims := [("z", nt), ("profile", 1), ("ns", ns)],
-      vars := [
-        vF "K_T0" "Initial heat transfer reduction factor" "K_T0" "nondimensional" ["profile"] [some s.K_T0],
-        vF "delta_t" "maximum simulation output time step" "delta_t" "seconds" ["profile"] [some s.delta_t],
-        vF "t" "time coordinate" "time" "seconds since release" ["z"] (s.t.map some) [("axis", .s "T")],
-        -- `y[0:len(t), i] = self.y[:, i]` for every column i
-        vF2 "y" "solution state space" "y" "variable" ["z", "ns"]
-          (tabulate2 nt ns fun r c => (s.y[r]?).bind (·[c]?)) [("coordinate", .s "t")]] }
-  pure ((header h).add (own.add (tbl.toFile 0)))
+  { attrs := [],
+    dims := [("z", nt), ("profile", 1), ("ns", ns)],
+    vars := [
+      vF "K_T0" "Initial heat transfer reduction factor" "K_T0" "nondimensional" ["profile"] [some s.K_T0],
+      vF "delta_t" "maximum simulation output time step" "delta_t" "seconds" ["profile"] [some s.delta_t],
+      vF "t" "time coordinate" "time" "seconds since release" ["z"] (s.t.map some) [("axis", .s "T")],
+      -- `y[0:len(t), i] = self.y[:, i]` for every column i
+      vF2 "y" "solution state space" "y" "variable" ["z", "ns"]
+        (tabulate2 nt ns fun r c => (s.y[r]?).bind (·[c]?)) [("coordinate", .s "t")]] }
+
+def saveSbm (h : Header) (s : Sbm α) : Option (File α) :=
+  (saveTable 0 s.composition [s.particle] [s.K_T0]).map fun tbl =>
+    (header h).add ((sbmOwn s).add (tbl.toFile 0))
 
 def loadSbm (f : File α) : Sbm α :=
   let ps := loadParticles f
@@ -652,37 +667,43 @@ structure Bpm (α : Type) where
 def p1 (n long std units : String) (x : α) (extra : List (String × AttrVal α) := []) : String × Var α :=
   vF n long std units ["params"] [some x] extra
 
-/-- the main file; the far-field single-particle simulations go to `<fname>NNN.nc` through
-    `saveSbm`.  `none` = raises (`cj[0] = self.cj` with an empty array: IndexError). -/
-def saveBpm (h : Header) (s : Bpm α) : Option (File α) := do
-  let cjLast ← s.cj.getLast?       -- netCDF4 stores the elements one after the other in slot 0
-  let tbl ← saveTable 2 s.chem_names s.particles s.K_T0
+/-- dimensions, attributes and variables `save_sim` creates itself (l.951-1079, 1093-1095);
+    `cjLast` is what ends up in the one slot of `cj` -/
+def bpmOwn (s : Bpm α) (cjLast : α) : File α :=
   let nt := s.t.length
-  let own : File α :=
-    { attrs := [("tracers", .names s.tracers), ("chem_names", .names s.chem_names)],
-      dims := [("t", nt), ("profile", 1), ("ns", s.ns), ("params", 1)],
-      vars := [
-        p1 "x0" "Initial value of the x-coordinate" "x0" "m" (s.X.getD 0 0),
-        p1 "y0" "Initial value of the y-coordinate" "y0" "m" (s.X.getD 1 0),
-        p1 "z0" "Initial depth below the water surface" "depth" "m" (s.X.getD 2 0) zAttrs,
-        p1 "D" "Orifice diameter" "diameter" "m" s.D,
-        p1 "Vj" "Discharge velocity" "Vj" "m" s.Vj,
-        p1 "phi_0" "Discharge vertical angle to horizontal" "phi_0" "rad" s.phi_0,
-        p1 "theta_0" "Discharge horizontal angle to x-axis" "theta_0" "rad" s.theta_0,
-        p1 "Sj" "Discharge salinity" "Sj" "psu" s.Sj,
-        p1 "Tj" "Discharge temperature" "Tj" "K" s.Tj,
-        p1 "cj" "Discharge tracer concentration" "cj" "nondimensional" cjLast,
-        p1 "Ta" "ambient temperature at the release point" "Ta" "K" s.Ta,
-        p1 "Sa" "ambient salinity at the release point" "Sa" "psu" s.Sa,
-        p1 "P" "ambient pressure at the release point" "P" "Pa" s.P,
-        vI "track" "SBM Status (0: false, 1: true)" "boolean" ["params"] [some (b2i s.track)],
-        p1 "dt_max" "Simulation maximum duration" "dt_max" "s" s.dt_max,
-        p1 "sd_max" "Maximum distance along centerline s/D" "sd_max" "nondimensional" s.sd_max,
-        vF2 "t" "time along the plume centerline" "time" "s" ["t", "profile"]
-          (s.t.map fun x => [some x]) [("axis", .s "T"), ("n_times", .n (Int.ofNat nt))],
-        vF2 "q" "Lagranian plume model state space" "q" "variable" ["t", "ns"]
-          (tabulate2 nt s.ns fun r c => (s.q[r]?).bind (·[c]?))] }
-  pure ((header h).add (own.add (tbl.toFile 2)))
+  { attrs := [("tracers", .names s.tracers), ("chem_names", .names s.chem_names)],
+    dims := [("t", nt), ("profile", 1), ("ns", s.ns), ("params", 1)],
+    vars := [
+      p1 "x0" "Initial value of the x-coordinate" "x0" "m" (s.X.getD 0 0),
+      p1 "y0" "Initial value of the y-coordinate" "y0" "m" (s.X.getD 1 0),
+      p1 "z0" "Initial depth below the water surface" "depth" "m" (s.X.getD 2 0) zAttrs,
+      p1 "D" "Orifice diameter" "diameter" "m" s.D,
+      p1 "Vj" "Discharge velocity" "Vj" "m" s.Vj,
+      p1 "phi_0" "Discharge vertical angle to horizontal" "phi_0" "rad" s.phi_0,
+      p1 "theta_0" "Discharge horizontal angle to x-axis" "theta_0" "rad" s.theta_0,
+      p1 "Sj" "Discharge salinity" "Sj" "psu" s.Sj,
+      p1 "Tj" "Discharge temperature" "Tj" "K" s.Tj,
+      p1 "cj" "Discharge tracer concentration" "cj" "nondimensional" cjLast,
+      p1 "Ta" "ambient temperature at the release point" "Ta" "K" s.Ta,
+      p1 "Sa" "ambient salinity at the release point" "Sa" "psu" s.Sa,
+      p1 "P" "ambient pressure at the release point" "P" "Pa" s.P,
+      vI "track" "SBM Status (0: false, 1: true)" "boolean" ["params"] [some (b2i s.track)],
+      p1 "dt_max" "Simulation maximum duration" "dt_max" "s" s.dt_max,
+      p1 "sd_max" "Maximum distance along centerline s/D" "sd_max" "nondimensional" s.sd_max,
+      vF2 "t" "time along the plume centerline" "time" "s" ["t", "profile"]
+        (s.t.map fun x => [some x]) [("axis", .s "T"), ("n_times", .n (Int.ofNat nt))],
+      vF2 "q" "Lagranian plume model state space" "q" "variable" ["t", "ns"]
+        (tabulate2 nt s.ns fun r c => (s.q[r]?).bind (·[c]?))] }
+
+/-- the main file; the far-field single-particle simulations go to `<fname>NNN.nc` through
+    `saveSbm`.  `none` = raises (`cj[0] = self.cj` with an empty array: IndexError);
+    netCDF4 stores the elements of the array one after the other in slot 0: the last stays. -/
+def saveBpm (h : Header) (s : Bpm α) : Option (File α) :=
+  match s.cj.getLast? with
+  | none => none
+  | some cjLast =>
+    (saveTable 2 s.chem_names s.particles s.K_T0).map fun tbl =>
+      (header h).add ((bpmOwn s cjLast).add (tbl.toFile 2))
 
 def loadBpm (f : File α) : Bpm α :=
   let ps := loadParticles f
@@ -723,32 +744,34 @@ structure Spm (α : Type) where
   Sa : α
   P : α
 
-def saveSpm (h : Header) (s : Spm α) : Option (File α) := do
-  let tbl ← saveTable 1 s.chem_names s.particles s.K_T0
+/-- dimensions and variables `save_sim` creates itself (l.624-704) -/
+def spmOwn (s : Spm α) : File α :=
   let nzi := s.zi.length
   let nzo := s.zo.length
   -- `z[:,0] = zi; z[:,1] = zo` on the unlimited dimension: it grows to the longer of the two,
   -- the shorter column stays unwritten below its end
   let nz := Nat.max nzi nzo
-  let own : File α :=
-    { attrs := [],
-      dims := [("z", nz), ("profile", 2), ("nsi", s.nsi), ("nso", s.nso), ("params", 1)],
-      vars := [
-        p1 "R" "radius of the release point" "R" "m" s.R,
-        p1 "Ta" "ambient temperature at the release point" "Ta" "K" s.Ta,
-        p1 "Sa" "ambient salinity at the release point" "Sa" "psu" s.Sa,
-        p1 "P" "ambient pressure at the release point" "P" "Pa" s.P,
-        p1 "maxit" "maximum allowable number of iterations" "maxit" "nondimensional" s.maxit,
-        p1 "toler" "relative error tolerance for convergence" "toler" "nondimensional" s.toler,
-        p1 "delta_z" "maximum step size in output" "delta_z" "m" s.delta_z,
-        vF2 "z" "depth below the water surface" "depth" "m" ["z", "profile"]
-          ((List.range nz).map fun r => [s.zi[r]?, s.zo[r]?])
-          (zAttrs ++ [("n_inner", .n (Int.ofNat nzi)), ("n_outer", .n (Int.ofNat nzo))]),
-        vF2 "yi" "inner plume state space" "yi" "variable" ["z", "nsi"]
-          (tabulate2 nz s.nsi fun r c => (s.yi[r]?).bind (·[c]?)) [("coordinate", .s "z")],
-        vF2 "yo" "outer plume state space" "yo" "variable" ["z", "nso"]
-          (tabulate2 nz s.nso fun r c => (s.yo[r]?).bind (·[c]?)) [("coordinate", .s "z")]] }
-  pure ((header h).add (own.add (tbl.toFile 1)))
+  { attrs := [],
+    dims := [("z", nz), ("profile", 2), ("nsi", s.nsi), ("nso", s.nso), ("params", 1)],
+    vars := [
+      p1 "R" "radius of the release point" "R" "m" s.R,
+      p1 "Ta" "ambient temperature at the release point" "Ta" "K" s.Ta,
+      p1 "Sa" "ambient salinity at the release point" "Sa" "psu" s.Sa,
+      p1 "P" "ambient pressure at the release point" "P" "Pa" s.P,
+      p1 "maxit" "maximum allowable number of iterations" "maxit" "nondimensional" s.maxit,
+      p1 "toler" "relative error tolerance for convergence" "toler" "nondimensional" s.toler,
+      p1 "delta_z" "maximum step size in output" "delta_z" "m" s.delta_z,
+      vF2 "z" "depth below the water surface" "depth" "m" ["z", "profile"]
+        ((List.range nz).map fun r => [s.zi[r]?, s.zo[r]?])
+        (zAttrs ++ [("n_inner", .n (Int.ofNat nzi)), ("n_outer", .n (Int.ofNat nzo))]),
+      vF2 "yi" "inner plume state space" "yi" "variable" ["z", "nsi"]
+        (tabulate2 nz s.nsi fun r c => (s.yi[r]?).bind (·[c]?)) [("coordinate", .s "z")],
+      vF2 "yo" "outer plume state space" "yo" "variable" ["z", "nso"]
+        (tabulate2 nz s.nso fun r c => (s.yo[r]?).bind (·[c]?)) [("coordinate", .s "z")]] }
+
+def saveSpm (h : Header) (s : Spm α) : Option (File α) :=
+  (saveTable 1 s.chem_names s.particles s.K_T0).map fun tbl =>
+    (header h).add ((spmOwn s).add (tbl.toFile 1))
 
 def loadSpm (f : File α) : Spm α :=
   let ps := loadParticles f
@@ -1125,17 +1148,17 @@ def run1 {β : Type} (p : P β) (args : List Arg) (k : β → List Arg) : Option
 def dispatch : Dispatch := fun name args =>
   match name with
   | "SaveLoad.particles.save" =>
-    run1 (do let pt ← pNat; let chem ← pNames; let ps ← pParticles; let k ← pV; pure (pt, chem, ps, k)) args
-      fun (pt, chem, ps, k) => eOptFile ((saveTable pt chem ps k).map (Table.toFile pt))
+    run1 (do let pt ← pNat; let chem ← pNames; let ps ← pParticles; let k ← pV; let ta ← pF; pure (pt, chem, ps, k, ta)) args
+      fun (pt, chem, ps, k, _) => eOptFile ((saveTable pt chem ps k).map (Table.toFile pt))
   | "SaveLoad.particles.load" =>
-    run1 (do let pt ← pNat; let chem ← pNames; let ps ← pParticles; let k ← pV; pure (pt, chem, ps, k)) args
-      fun (pt, chem, ps, k) => match (saveTable pt chem ps k).map (Table.toFile pt) with
-        | some f => let r := loadParticles f; [.t "ok"] ++ eParticles r.1 ++ eNames r.2
+    run1 (do let pt ← pNat; let chem ← pNames; let ps ← pParticles; let k ← pV; let ta ← pF; pure (pt, chem, ps, k, ta)) args
+      fun (pt, chem, ps, k, ta) => match (saveTable pt chem ps k).map (Table.toFile pt) with
+        | some f => let r := loadParticles ((taFile ta).add f); [.t "ok"] ++ eParticles r.1 ++ eNames r.2
         | none => [.t "raises"]
   | "SaveLoad.particles.resave" =>
-    run1 (do let pt ← pNat; let chem ← pNames; let ps ← pParticles; let k ← pV; pure (pt, chem, ps, k)) args
-      fun (pt, chem, ps, k) => match (saveTable pt chem ps k).map (Table.toFile pt) with
-        | some f => let r := loadParticles f
+    run1 (do let pt ← pNat; let chem ← pNames; let ps ← pParticles; let k ← pV; let ta ← pF; pure (pt, chem, ps, k, ta)) args
+      fun (pt, chem, ps, k, ta) => match (saveTable pt chem ps k).map (Table.toFile pt) with
+        | some f => let r := loadParticles ((taFile ta).add f)
                     eOptFile ((saveTable pt r.2 r.1 (r.1.map (·.K_T))).map (Table.toFile pt))
         | none => [.t "raises"]
   | "SaveLoad.sbm.save" => run1 (do let h ← pHeader; let s ← pSbm; pure (h, s)) args
